@@ -157,6 +157,34 @@ func handlerSeq(prop string, first byte, maxLen, bound int) *explore.Scenario {
 			if msg := wantOf(wantTrl...).check(r.CTrailer, nil); msg != "" {
 				vsched.Fail("C04"+fam+"response-trailer", "handler ops %s: Trailer(): %s", seq, msg)
 			}
+			// C05: the per-call order of the response envelopes on the wire - headers that travel in an envelope
+			// of their own come first, the trailer comes last
+			{
+				var kinds []string
+				for _, e := range d.Tap.Events {
+					if e.Dir != "b2a" { // (the scenario's only call)
+						continue
+					}
+					switch {
+					case e.Rpc.GetReset_() != nil:
+						kinds = append(kinds, "reset") // (the server's answer to messages that arrive after the handler returned)
+					case e.Rpc.GetTrailer() != nil || e.Rpc.GetStatus() != nil:
+						kinds = append(kinds, "trailer")
+					case e.Rpc.GetBody() != nil:
+						kinds = append(kinds, "message")
+					default:
+						kinds = append(kinds, "header")
+					}
+				}
+				ended := false
+				for i, k := range kinds {
+					if (k == "header" && i != 0) || ((k == "message" || k == "trailer") && ended) {
+						vsched.Fail("C05"+fam+"per-call-order", "handler ops %s: the call's response envelopes are on the wire as %v", seq, kinds)
+						break
+					}
+					ended = ended || k == "trailer"
+				}
+			}
 			// C14 + C06
 			if st := c14State(d); st != idle {
 				vsched.Fail("C14"+fam+"not-idle:"+diffKey(idle, st), "handler ops %s: the connection did not return to its idle state:\n%s", seq, diffStates(idle, st))
@@ -328,6 +356,6 @@ func handlerSeqs(prop, tier string) []*explore.Scenario {
 	for _, f := range []byte("rshHt") {
 		out = append(out, handlerSeq(prop, f, maxLen, 0))
 	}
-	out = append(out, handlerSeq(prop, 's', 2, 1), handlerSeq(prop, 'H', 2, 1))
+	out = append(out, handlerSeq(prop, 's', 2, 1), handlerSeq(prop, 'H', 2, 1), handlerSeq(prop, 'h', 2, 1))
 	return out
 }
